@@ -39,6 +39,3 @@ Definition pinned_decls_omap : list string :=
 
 Definition ok_omap : Prop :=
   of_file fst "omap.go" InvOmap.inventory = pinned_omap /\ of_file (fun s => s) "omap.go" InvOmap.decls = pinned_decls_omap.
-
-Lemma C04_inventory_omap : InvOmap.files = pinned_files /\ ok_omap.
-Proof. unfold ok_omap; repeat split; vm_compute; reflexivity. Qed.
